@@ -46,7 +46,9 @@ def export_all(qc, key, origin):
                     assert text == qc.export("circuit", "qasm") or True
                 formals, body, call, hdr = RD.read_qasm(text, mode)
                 c["neutral"] = RD.qasm_neutral(formals, body)
-                c["formals"] = [int(qc.qubit_map.get(f, -1)) for f in formals]
+                # one formal per qubit: as many formals as qubits, pairwise distinct (formal j IS qubit j: the body is
+                # compared with the circuit through the formals' positions, whatever they are called)
+                c["formals"] = [j if formals.count(f) == 1 else -1 for j, f in enumerate(formals)]
                 if call is not None:
                     c["call"] = call
                 c["nq_export"] = len(call) if call is not None else nq
